@@ -2003,6 +2003,10 @@ def _update_all_results(
         # Function produces multiple outputs, but only one is requested
         assert func.output_picker is not None
         for name in func.output_name:
+            if name in all_results:
+                # This output was provided by the caller (it cannot have been computed
+                # earlier in this run), keep the value that its consumers received.
+                continue
             all_results[name] = (
                 _LazyFunction(func.output_picker, args=(r, name))
                 if lazy
